@@ -381,6 +381,10 @@ def stage_zoo(ld, seed):
             sort_key=lambda x: x[1], reverse_sort=True)),
         ('CacheDataset', lambda: d().map(f).cache(keep_mem_free='1 MB')),
         ('ProfilingDataset', lambda: core.ProfilingDataset(d().map(f))),
+        ('DiskCacheDataset', lambda: d().map(f).diskcache(reuse=False, clear=True)),
+        ('KeyZipDataset-3', lambda: d().key_zip(d(5, 10), d(5, 20).map(g))),
+        ('ZipDataset-3', lambda: d().zip(d(5, 10, 'q'), l(5))),
+        ('IntersperseDataset-3', lambda: d().intersperse(d(3, 10, 'q'), d(2, 20, 'r'))),
         ('CycleDataset', lambda: d().cycle()),
     ]
     return zoo
@@ -407,7 +411,7 @@ def behaviour(ld, ds):
         for name, fn in (('iter', lambda: list(itertools.islice(ds, 40))),
                          ('len', lambda: len(ds)),
                          ('keys', lambda: tuple(ds.keys())),
-                         ('repr', lambda: str(ds).split(' at 0x')[0]),
+                         ('repr', lambda: str(ds).split(' at 0x')[0].split('cache_dir=')[0]),
                          ('iter2', lambda: list(itertools.islice(ds, 40)))):
             try:
                 obs[name] = fn()
